@@ -1,21 +1,32 @@
-import PprofVerif.Lemmas.LegacyHeap
+import PprofVerif.Lemmas.LegacyDispatch
 import PprofVerif.Model.Legacy
 /-!
 # C14 — legacy text and binary profiles convert with the documented values
 
 For every legacy format: a document type, a printer (`printX`, with the variation the Go
-parsers tolerate), the documented meaning `expectedX`, and a Lean parser `parseX` mirroring the
-Go parser.  The theorems say `parseX (printX d) = ok (expectedX d)` for ALL well-formed documents
-`d`, so the documented conversion is what the (model of the) parser computes on every printable
-input; the correspondence check ties `parseX` and `expectedX` to the real `profile.ParseData` on
-every run.  Float unsampling (`ScaleFn`, `CycFn`) is a parameter: the theorems hold for every
-instance.  Helper lemmas live in `Lemmas/Legacy*.lean`.
+parsers tolerate: comment and blank lines, header variants, spacing, zero padding, a trailing
+memory map in `/proc/maps` or brief form), the documented meaning `expectedX`, and a Lean parser
+`parseX` mirroring the Go parser (`Model/Legacy*.lean`).  The theorems say
+
+    parseX (printX d) = ok (expectedX d)      for ALL well-formed documents d
+
+so the documented conversion is what the (model of the) parser computes on every printable
+input.  The correspondence check ties `parseX` and `expectedX` to the real `profile.ParseData`
+on every run.  Float unsampling (`ScaleFn`, `CycFn`) is a parameter: the theorems hold for
+every instance.  `finish`/`javaAssemble` (location table, mapping heuristics) are shared by
+`expectedX` and `parseX`; `sample_addresses_resolve` shows that the ids they hand out resolve to
+the documented addresses.  Helper lemmas live in `Lemmas/Legacy*.lean`.
 -/
 namespace PV.Props.C14
 open PV PV.Legacy
 
+/-! ### number renderings -/
+
 /-- `%d` then reading it back (`strconv.ParseInt(_, 10, 64)` on the captured digits). -/
 theorem dec_print_parse (n : Nat) (h : n < two63) : parseI64 (dec n) = some n := parseI64_dec h
+
+/-- `%d` read back with base 0 (`strconv.ParseInt(_, 0, 64)`): no leading zero, so never octal. -/
+theorem dec_print_parse_base0 (n : Nat) (h : n < two63) : parseI64Base0 (dec n) = some n := parseI64Base0_dec h
 
 /-- `0x%0<w>x` then reading it back (`strconv.ParseUint(_, 0, 64)`), for every padding width. -/
 theorem hex_print_parse (w n : Nat) (h : n < two64) : parseU64Base0 (hex0x w n) = some n := parseU64Base0_hex0x h
@@ -24,7 +35,20 @@ theorem hex_print_parse (w n : Nat) (h : n < two64) : parseU64Base0 (hex0x w n) 
 theorem addrs_print_parse (w : Nat) (as : List Nat) (h : ∀ a ∈ as, a < two64) :
     parseHexAddresses (printAddrs w as) = some as := parseHexAddresses_printAddrs w as h
 
-/-- Go count profiles: every well-formed document parses to its documented profile. -/
+/-- a printed memory-map entry (either form, any spacing) is read back as the mapping it stands
+for; non-executable entries are skipped. -/
+theorem mapEntry_print_parse (e : MapEntry) (h : e.wf = true) :
+    parseMappingEntry e.print = (match e.mapping with | some m => .mapping m | none => .skip) :=
+  parseMappingEntry_print e h
+
+/-- a printed memory-map section (entries interleaved with comment/blank lines) gives exactly
+the mappings of its executable entries, in order. -/
+theorem mapSection_print_parse (m : MapSection) (h : m.wf = true) : parseProcMaps m.bodyLines = m.mappings :=
+  parseProcMaps_bodyLines m h
+
+/-! ### one theorem per format -/
+
+/-- Go count profiles (goroutine, threadcreate, …). -/
 theorem parseCount_printCount (d : CountDoc) (h : d.wf = true) :
     parseGoCount (printCount d) = .ok (expectedCount d) := parseGoCount_printCount d h
 
@@ -32,11 +56,132 @@ theorem parseCount_printCount (d : CountDoc) (h : d.wf = true) :
 theorem parseHeap_printHeap (scale : ScaleFn) (d : HeapDoc) (h : d.wf = true) :
     parseHeap scale (printHeap d) = .ok (expectedHeap scale d) := Legacy.parseHeap_printHeap scale d h
 
--- non-vacuity: well-formed documents with records, fillers and a memory map exist
+/-- Contention / mutex profiles. -/
+theorem parseContention_printContention (cyc : CycFn) (d : ContDoc) (h : d.wf = true) :
+    parseContention cyc (printContention d) = .ok (expectedContention cyc d) :=
+  Legacy.parseContention_printContention cyc d h
+
+/-- Threadz profiles. -/
+theorem parseThread_printThread (d : ThreadDoc) (h : d.wf = true) :
+    parseThread (printThread d) = .ok (expectedThread d) := Legacy.parseThread_printThread d h
+
+/-- Binary CPU profiles, all four word layouts (the decoders tried before the right one reject
+the header). -/
+theorem parseCpu_printCpu (d : CpuDoc) (h : d.wf = true) : parseCPU (printCpu d) = .ok (expectedCpu d) :=
+  parseCPU_printCpu d h
+
+/-- Java heapz / contentionz profiles. -/
+theorem parseJava_printJava (scale : ScaleFn) (d : JavaDoc) (h : d.wf = true) :
+    parseJavaProfile scale (printJava d) = .ok (expectedJava scale d) := Legacy.parseJava_printJava scale d h
+
+/-! ### `ParseData` level (protobuf decoder first, then the chain of legacy parsers)
+
+Full statement of the property for a format X:
+`parseData pb scale cyc (printX d) = ok (expectedX d)` for the real protobuf decoder `pb`.
+It is FALSE on the pinned tree for binary CPU documents whose bytes also decode as a protobuf
+message (known finding `C14/cpu/taken-for-protobuf`, witness in corpus/C14: big-endian 64-bit,
+period 100, one sample at 0x3200): the decoder skips field number 0 instead of rejecting it.
+Proved: the statement under the hypothesis that the protobuf decoder does not accept the
+document, for binary CPU and heap documents (for the other formats the dispatch — every earlier
+parser answers "unrecognized" — is tied by the correspondence check only). -/
+
+/-- binary CPU documents through the whole dispatch, unless the protobuf decoder takes them -/
+theorem parseData_printCpu_partial (pb : Str → Outcome Profile) (scale : ScaleFn) (cyc : CycFn) (d : CpuDoc)
+    (h : d.wf = true) (hpb : ∀ p, pb (printCpu d) ≠ .ok p) :
+    parseData pb scale cyc (printCpu d) = .ok (expectedCpu d) := by
+  rw [parseData_of_pb_fails pb scale cyc _ hpb]; exact parseLegacy_printCpu scale cyc d h
+
+/-- heap documents through the whole dispatch (`parseCPU` answers "unrecognized" on text) -/
+theorem parseData_printHeap_partial (pb : Str → Outcome Profile) (scale : ScaleFn) (cyc : CycFn) (d : HeapDoc)
+    (h : d.wf = true) (hpb : ∀ p, pb (printHeap d) ≠ .ok p) :
+    parseData pb scale cyc (printHeap d) = .ok (expectedHeap scale d) := by
+  rw [parseData_of_pb_fails pb scale cyc _ hpb]; exact parseLegacy_printHeap scale cyc d h
+
+/-! ### the rules the property names -/
+
+/-- The ids `finish` hands to the samples resolve to the raw addresses: for every final sample
+whose addresses are in the location table, looking its location ids up gives back its stack. -/
+theorem sample_addresses_resolve (h : Header) (tf fin : List RawSample) (parsed : List Mapping) (s : RawSample)
+    (hs : ∀ a ∈ s.addrs, a ∈ tf.flatMap (·.addrs)) :
+    (s.addrs.map (idOf (dedup (tf.flatMap (·.addrs))))).map (addrOf (finish h tf fin parsed)) = s.addrs.map some :=
+  finish_stack h tf fin parsed s hs
+
+/-- Address rule, end to end for count profiles: the i-th record `n @ a₁ a₂ …` of any well-formed
+document becomes the i-th sample, with value `n` and a stack whose locations have the addresses
+`a₁−1, a₂−1, …` (every frame is a call site). -/
+theorem addr_adjust_rule (d : CountDoc) (h : d.wf = true) (i : Nat) (r : CountRec) (hr : d.recs[i]? = some r) :
+    ∃ p s, parseGoCount (printCount d) = .ok p ∧ p.samples[i]? = some s ∧ s.values = [(r.n : Int)] ∧
+      s.locationIDs.map (addrOf p) = r.addrs.map (fun a => some (decr64 a)) := by
+  refine ⟨expectedCount d,
+    { locationIDs := r.sample.addrs.map (idOf (dedup ((d.recs.map CountRec.sample).flatMap (·.addrs)))),
+      values := r.sample.values, label := [], numLabel := r.sample.numLabel, numUnit := [] },
+    parseGoCount_printCount d h, ?_, rfl, ?_⟩
+  · simp only [expectedCount, finish_samples, List.getElem?_map, hr, Option.map_some]
+  · simp only [expectedCount]
+    have := finish_stack (countHeader d.name) (d.recs.map CountRec.sample) (d.recs.map CountRec.sample)
+      (tailMappings d.map) r.sample (by
+        intro a ha
+        simp only [List.mem_flatMap, List.mem_map]
+        exact ⟨r.sample, ⟨r, List.mem_of_getElem? hr, rfl⟩, ha⟩)
+    simpa [CountRec.sample, List.map_map] using this
+
+/-- Address rule where the leaf is not a call: threadz and binary CPU samples keep the first
+address and move the others back by one. -/
+theorem addr_adjust_rule_leaf (leaf : Nat) (callers : List Nat) (period count : Nat) :
+    (cpuSample period count (leaf :: callers)).addrs = leaf :: callers.map decr64 ∧
+    (threadSamplesRev [ThreadRec.mk 0 [] 0 (.stack [ThreadLine.mk 0 0 .pc (leaf :: callers) none])] []).map (·.addrs)
+      = [leaf :: callers.map decr64] := ⟨rfl, by simp [threadSamplesRev, adjustCallers]⟩
+
+/-- "same as previous thread": the record adds no sample, it adds one to the value of the
+preceding sample (and is ignored when there is none). -/
+theorem threadz_same_as_previous (rs : List ThreadRec) (r : ThreadRec) (blanks indent : Nat)
+    (hr : r.body = .same blanks indent) :
+    threadSamplesRev (rs ++ [r]) [] = bumpLast (threadSamplesRev rs []) ∧
+    (bumpLast (threadSamplesRev rs [])).length = (threadSamplesRev rs []).length ∧
+    (∀ s rest, threadSamplesRev rs [] = s :: rest → ∀ v vs, s.values = v :: vs →
+      ∃ s', bumpLast (threadSamplesRev rs []) = s' :: rest ∧ s'.values = (v + 1) :: vs ∧ s'.addrs = s.addrs) := by
+  refine ⟨?_, ?_, ?_⟩
+  · rw [threadSamplesRev_eq, threadSamplesRev_eq, List.foldl_append]
+    simp [ThreadRec.step, hr]
+  · cases threadSamplesRev rs [] <;> simp [bumpLast]
+  · intro s rest hs v vs hv
+    rw [hs]
+    exact ⟨_, rfl, by simp [hv], rfl⟩
+
+/-- Signal-handler frame rule of binary CPU profiles: with `n ≥ 1` samples, an address that is the
+second frame of at least `n − n/32` of them is removed from exactly the samples that have it in
+second place (`dropSecondIf`), all other samples are left alone; at most one address can
+qualify; when none does nothing is removed.  (`expectedCpu` applies the step twice.) -/
+theorem cpu_signal_frame_rule (ss : List RawSample) (hn : ss ≠ []) :
+    (∀ a, secondCount ss a ≥ ss.length - ss.length / 32 → stripSignalFrame ss = ss.map (dropSecondIf a)) ∧
+    (∀ a b, secondCount ss a ≥ ss.length - ss.length / 32 → secondCount ss b ≥ ss.length - ss.length / 32 → a = b) ∧
+    ((∀ a, secondCount ss a < ss.length - ss.length / 32) → stripSignalFrame ss = ss) :=
+  ⟨fun a ha => stripSignalFrame_of_shared ss hn a ha,
+   fun _ _ ha hb => signal_frame_unique ss hn ha hb,
+   fun h => stripSignalFrame_of_none ss h⟩
+
+/-! ### non-vacuity: well-formed documents with records, fillers and a memory map exist -/
 example : (({ pre := [{ indent := 1, comment := some (asc " c") }], name := asc "goroutine", total := 3, width := 8,
               recs := [{ fill := [], n := 2, addrs := [4198401, 1] }], post := [],
               map := some { entries := [([], { indent := 2, ox := false, width := 8, start := 4194304, limit := 4259840, gap := 0,
                                                form := .brief true none (some (asc "/bin/x")) none none })], post := [] } } : CountDoc).wf) = true := by
   decide
+
+example : (({ kind := .heapV2, totInuseN := 1, totInuseB := 2, totAllocN := 3, totAllocB := 4, rate := some 1024, pad := 1, width := 0,
+              recs := [{ fill := [], indent := 2, inuseN := 1, inuseB := 512, allocN := 2, allocB := 1024, addrs := [4198401] }],
+              post := [], libs := true, map := none } : HeapDoc).wf) = true := by decide
+
+example : (({ big := true, w64 := false, period := 10000, recs := [{ count := 5, addrs := [4198401, 4198500] }],
+              eod := true, map := none } : CpuDoc).wf) = true := by decide
+
+example : (({ pre := [], head := some (1, []), width := 8,
+              recs := [{ id := 1, name := asc "main", tid := 7,
+                         body := .stack [{ blanks := 0, indent := 2, label := .pc, addrs := [4198401], sym := some (asc "main") }] },
+                       { id := 2, name := asc "t", tid := 8, body := .same 0 2 }],
+              ending := .noStack 3 none } : ThreadDoc).wf) = true := by decide
+
+-- the signal-frame rule applies: 3 samples sharing their second frame
+example : stripSignalFrame [⟨[1, 9, 2], [1], []⟩, ⟨[3, 9], [1], []⟩, ⟨[4, 9, 5], [1], []⟩]
+    = [⟨[1, 2], [1], []⟩, ⟨[3], [1], []⟩, ⟨[4, 5], [1], []⟩] := by decide
 
 end PV.Props.C14
